@@ -135,6 +135,10 @@ for other in ('created-after', 'created-before'):
 for sr in ('before0', 'before1', 'after0', 'after1'):
     CONFIGS.append({'before': 2, 'fail': None, 'after': 2, 'errh': None, 'selfremove': sr})
     CONFIGS.append({'before': 2, 'fail': (1, 'exc'), 'after': 2, 'errh': None, 'selfremove': sr})
+# debug mode (error pages carry the exception and the traceback): the response must be just as well-formed
+for errh in (None, '500str', '500raise', 'allraise'):
+    CONFIGS.append({'before': 1, 'fail': None, 'after': 1, 'errh': errh, 'debug': True})
+    CONFIGS.append({'before': 2, 'fail': (1, 'exc'), 'after': 1, 'errh': errh, 'debug': True})
 BASE_CFG = {'before': 0, 'fail': None, 'after': 0, 'errh': None}
 REPR_PROGS = [['return', ['str', 'a'], None], ['return', ['none'], None], ['return', ['gen', [['s', ''], ['s', 'a']]], None],
               ['return', ['citer', [['b', b'b']]], None], ['return', ['citer2', [['s', 'a']]], None], ['return', ['gen', [['raise']]], None], ['raise', ['exc']],
@@ -416,7 +420,7 @@ def serve(om, prog, method, cfg, outcome='found', file_wrapper=False):
         om = sut.load(fresh=True)       # hook registries are per-process state: start clean
     if cfg.get('other_app') == 'created-before':
         other_app(om, log)
-    app = om.Ombott()
+    app = om.Ombott({'debug': True}) if cfg.get('debug') else om.Ombott()
     hooks = {}
     for i in range(cfg['before']):
         def bh(_i=i):
